@@ -1,11 +1,11 @@
 """C01 -- cardinal round-trip below 10^12 (DESIGN.md section 3, C01)."""
 import vlib
-from checks import spell, streams
+from checks import spell, streams, scanner_mc
 
 
 def run(ctx):
     q = ctx.quick()
-    vlib.model_check(ctx, "MC_Spell", "MC_Spell_quick.cfg" if q else "MC_Spell_thorough.cfg", workers=8 if q else 14, heap="6g")
+    scanner_mc.spell_mc(ctx)
     prm = dict(kind="card", upto=2000 if q else 1000000, rlow=[0, 1, 7, 11, 16, 21, 71, 80, 81, 88, 99, 100, 101, 181, 999] if q else spell.RQUICK_LOW + [3, 4, 8, 12, 13, 17, 19, 30, 60, 61, 90, 98, 108, 111, 121, 300, 480, 800, 881, 900],
                rhigh=[0, 1, 2, 100] if q else spell.RQUICK_HIGH + [81, 180], randn=2000 if q else 300000, seed=ctx.seed % 100000)
     spell.apply_conformance(ctx)
